@@ -585,6 +585,14 @@ class Ctx:
             "checker_cmd": "lake build BFL.Props.%s && lake env lean <generated #print axioms / #check file> (vlib.audit)" % self.prop,
             "theorems": [{"name": o["name"], "axioms": o["axioms"], "ok": o["ok"]} for o in a["obligations"]],
         })
+        if self.tier == "thorough":
+            # independent re-check of the compiled files of the property's own modules
+            mods = ["BFL.Props.%s" % self.prop]
+            bad = leanchecker(mods)
+            self.coverage["leanchecker"] = {"modules": mods, "failed": [b[0] for b in bad]}
+            if bad:
+                a["ok"] = False
+                a.setdefault("leanchecker_bad", bad)
         if not a["ok"]:
             why = []
             if not a.get("build_ok", True):
@@ -596,6 +604,8 @@ class Ctx:
                     why.append("%s: %s" % (o["name"], o["why"]))
             if n_ob == 0:
                 why.append("no obligations registered")
+            for m, log in a.get("leanchecker_bad", []):
+                why.append("leanchecker rejected %s: %s" % (m, log))
             self.proof_failure = why
         else:
             self.proof_failure = None
